@@ -11,7 +11,7 @@ RULE = ("Pairs (a, b) built from a planted alignment: b = a with substitutions, 
         "alphabets ACGT / 20 amino acids; all five alignment types (plus 'undefined') or explicit penalties (all three given, "
         "multiples of 0.5); groups of k, l in 1..3 identical copies (seq-seq, seq-profile, profile-profile kernels; which kernel "
         "decided is read from the DP hook events); threads 1..16; through kalign(). Oracle: independent full-matrix three-state "
-        "DP in double precision over the documented scoring model (open and close each gpo, extension gpe, terminal columns "
+        "DP in double precision over the three-state scoring model with the substitution matrix and penalties kalign reports to be in effect (PARAMS hook; that they are the documented ones is C09's subject) (open and close each gpo, extension gpe, terminal columns "
         "tgpe) with a margin certificate: OPT by traceback; margin against every alternative with the same terminal gaps via "
         "forward+backward matrices on the interior rectangle; margin against alternatives with different terminal gaps with "
         "OPT charged for closing its terminal gaps and the alternatives not; required margin = max(len)/2000 (centre bias) + "
@@ -170,20 +170,6 @@ def check(case):
     if gen.expected_kind([a, b]) != kind:
         return engine.discard("kind of the pair is not determined by a C13 premise")
     setn = SET_FOR[(kind, case["type"])]
-    base = params_model.SETS[setn]
-    gpo, gpe, tgpe = [p if p >= 0 else base[n] for p, n in zip(case["pens"], ("gpo", "gpe", "tgpe"))]
-    cert = dporacle.certify(a, b, kind, setn, gpo, gpe, tgpe)
-    if cert is None:
-        return engine.discard("oracle: optimum without any aligned pair")
-    exact = all(float(x * 2).is_integer() for x in (gpo, gpe, tgpe)) and setn != "rna"
-    need = max(len(a), len(b)) / 2000.0 + 0.01 + (0.0 if exact else 1e-4 * abs(cert["opt"]))
-    cl = ["kind=" + kind, "set=" + setn, "explicit" if case["pens"][0] >= 0 else "defaults"]
-    if max(len(a), len(b)) >= 500:
-        cl.append("len>=500")
-    if min(len(a), len(b)) >= 500:
-        cl.append("minlen>=500(parallel)")
-    if min(cert["m_same"], cert["m_diff"]) <= need:
-        return engine.discard("not certified (margin %s)" % ("<= need" if min(cert["m_same"], cert["m_diff"]) > 0 else "0: tie"), classes=cl)
     k, l = case["k"], case["l"]
     if (k > 1 or l > 1):
         x, y = (a, b) if len(a) >= len(b) else (b, a)
@@ -193,15 +179,33 @@ def check(case):
     seqs = [a] * k + [b] * l if case["a_first"] else [b] * l + [a] * k
     cfg = {"type": case["type"], "threads": case["threads"], "gpo": case["pens"][0], "gpe": case["pens"][1], "tgpe": case["pens"][2]}
     try:
-        wd = kal.runner.workdir()
         names = ["s%d" % i for i in range(len(seqs))]
-        r = kal.align_named(names, seqs, cfg, hook=(1, 0, 0))
+        r = kal.align_named(names, seqs, cfg, hook=(1, 0, 1))
     except kal.Failure as f:
         if f.ended.kind == "hang":
             return engine.discard("cpu-limit")
         return engine.violation({"what": "process failure", **f.detail()}, kind="crash")
     except kal.Rejected as e:
         return engine.violation({"what": "valid pair rejected: " + e.what, "info": e.info}, kind="status")
+    # the oracle scores with the substitution matrix and penalties kalign reports to be in effect for this run (PARAMS
+    # hook): C07 is about the dynamic programming; whether those are the documented values is C09's subject
+    obs = r["run"].get("params")
+    if not obs:
+        return engine.violation({"what": "no PARAMS event: hook not active"}, kind="harness")
+    gpo, gpe, tgpe, subm = obs["gpo"], obs["gpe"], obs["tgpe"], obs["subm"]
+    base = params_model.SETS[setn]
+    cert = dporacle.certify(a, b, kind, setn, gpo, gpe, tgpe, subm_flat=subm)
+    if cert is None:
+        return engine.discard("oracle: optimum without any aligned pair")
+    exact = all(float(x * 2).is_integer() for x in (gpo, gpe, tgpe)) and all(float(v * 2).is_integer() for v in subm)
+    need = max(len(a), len(b)) / 2000.0 + 0.01 + (0.0 if exact else 1e-4 * abs(cert["opt"]))
+    cl = ["kind=" + kind, "set=" + setn, "explicit" if case["pens"][0] >= 0 else "defaults"]
+    if max(len(a), len(b)) >= 500:
+        cl.append("len>=500")
+    if min(len(a), len(b)) >= 500:
+        cl.append("minlen>=500(parallel)")
+    if min(cert["m_same"], cert["m_diff"]) <= need:
+        return engine.discard("not certified (margin %s)" % ("<= need" if min(cert["m_same"], cert["m_diff"]) > 0 else "0: tie"), classes=cl)
     rows = r["rows"]
     arows = [row for row, s in zip(rows, seqs) if s is a or s == a]
     brows = [row for row, s in zip(rows, seqs) if not (s is a or s == a)] if a != b else rows[k:] if case["a_first"] else rows[:l]
@@ -219,8 +223,8 @@ def check(case):
         # F18 signature: kalign's own alignment K can be explained by the inconsistent charging of terminal gaps on the
         # column side (see DESIGN.md section 9): under the charging most favourable to K and least favourable to OPT, K is
         # not worse than OPT.
-        s_opt = dporacle.score_alignment(want_a, want_b, kind, setn, gpo, gpe, tgpe, 0.0)
-        s_k = dporacle.score_alignment(got[0], got[1], kind, setn, gpo, gpe, tgpe, 0.0)
+        s_opt = dporacle.score_alignment(want_a, want_b, kind, setn, gpo, gpe, tgpe, 0.0, subm_flat=subm)
+        s_k = dporacle.score_alignment(got[0], got[1], kind, setn, gpo, gpe, tgpe, 0.0, subm_flat=subm)
         fid = None
         allow = 0.0
         if s_k is not None and s_opt is not None:
